@@ -453,6 +453,28 @@ def run_kani(crate, harness_names, timeout=1500):
     return {'rc': p.returncode, 'seconds': round(time.time() - t, 1), 'summary': res, 'compile_error': compile_error, 'tail': out[-3000:]}
 
 
+def gen_outside(w):
+    """code placed OUTSIDE the emitted module: it names every item, field and function the semantic model marks public, so an item
+    the backend emitted with less visibility than resolved is a compile error (E0603 / E0616 / E0624) in `outside_probe`"""
+    mp = 'crate::w%d::m::' % w.idx
+    lines = []
+    for path, it in sorted(w.items.items()):
+        if not path.startswith('m::') or it[3] != 'defined' or it[4][0] != 'resolved' or it[2] != 'pub': continue
+        nm = path[3:]
+        if '::' in nm: continue
+        inner = it[4][3]
+        lines.append('        let _ = core::mem::size_of::<%s%s>();' % (mp, nm))
+        if inner[0] != 'type': continue
+        for r in inner[1]:
+            if r[1] == 'pub' and isinstance(r[2], str) and not r[2].startswith('_'):
+                lines.append('        let _ = core::mem::offset_of!(%s%s, %s);' % (mp, nm, r[2]))
+        fns = list(inner[3]) + (list(inner[4][0]) if inner[4] is not None else [])
+        for f in fns:
+            if f[1] == 'pub' and isinstance(f[2], str):
+                lines.append('        let _ = %s%s::%s;' % (mp, nm, f[2]))
+    return '    pub fn outside_probe_w%d() {\n%s\n    }' % (w.idx, '\n'.join(lines))
+
+
 def build_crate(workdir, witnesses, kinds=None, canary=True):
     crate = os.path.join(workdir, 'crate')
     shutil.rmtree(os.path.join(crate, 'src'), ignore_errors=True)
@@ -475,5 +497,6 @@ def build_crate(workdir, witnesses, kinds=None, canary=True):
             text = text.replace('fn %s()' % n, 'fn w%d_%s()' % (w.idx, n))
             allnames['w%d_%s' % (w.idx, n)] = w
         open(os.path.join(crate, 'src', 'w%d' % w.idx, 'm.rs'), 'w').write(text)
+    lib.append('#[cfg(kani)]\nmod outside_probe {\n' + '\n'.join(gen_outside(w) for w in witnesses) + '\n}')
     open(os.path.join(crate, 'src', 'lib.rs'), 'w').write('\n'.join(lib) + '\n')
     return crate, allnames
